@@ -202,6 +202,24 @@ def tlc(module, cfg=None, env=None, meta=None, workers=1, timeout=3600, xmx="3g"
     return res
 
 
+def tlaps(module, outdir, timeout=300):
+    """Supplementary: runs the TLA+ proof system on SPEC/module.tla in a scratch copy. Returns (proved, total) or None."""
+    d = os.path.join(outdir, "tlaps")
+    os.makedirs(d, exist_ok=True)
+    shutil.copy(os.path.join(SPEC, module + ".tla"), d)
+    try:
+        r = sh(["tlapm", "--threads", "4", module + ".tla"], cwd=d, timeout=timeout)
+    except Exception:
+        return None
+    m = re.search(r"All (\d+) obligations? proved", r.stdout)
+    if m:
+        return int(m.group(1)), int(m.group(1))
+    m = re.search(r"(\d+)/(\d+) obligations? failed", r.stdout)
+    if m:
+        return int(m.group(2)) - int(m.group(1)), int(m.group(2))
+    return None
+
+
 def pmap(fn, items, n=None):
     n = n or max(1, min(NCPU, len(items)))
     with ThreadPoolExecutor(max_workers=n) as ex:
